@@ -179,7 +179,102 @@ Lemma treg_net_step_sim wq wt we wr he hr c s i :
 Proof.
   intros (Hlen & Hq & Hst & Hp). destruct s as [vs pd ss tot]. cbn [vals sts pend] in *. subst pd ss.
   destruct i as [[t e] r]. destruct c as [st q0]. cbn [cell_q fst snd] in *.
-  destruct he, hr; cbn [treg_q Nat.add] in *; list_cases vs Hlen; cbn [rd nth] in Hq; subst; unfold treg_inv.
-  - kernel_eval; rewrite ?put_not. rewrite !Reg_clock_eq.
-   match goal with |- ?g => idtac g end. fail.
-Abort.
+  destruct he, hr; cbn [treg_q Nat.add] in *; list_cases vs Hlen; cbn [rd nth] in Hq; subst; unfold treg_inv;
+    kernel_eval; rewrite ?put_not; rewrite !Reg_clock_eq; unfold reg_next; cbn [andb];
+    repeat split; try reflexivity; exact (trunc_trunc _ _).
+Qed.
+
+Lemma treg_net_init_inv wq wt we wr he hr : treg_inv he hr cell_zero (treg_net_init wq wt we wr he hr).
+Proof. destruct he, hr; unfold treg_inv; kernel_eval; repeat split; reflexivity. Qed.
+
+Lemma treg_net_run_inv wq wt we wr he hr h :
+  treg_inv he hr (run (treg_m wq he hr) cell_zero (map (treg_seen wt we wr) h)) (treg_net_run wq wt we wr he hr h).
+Proof.
+  unfold treg_net_run, run.
+  generalize (treg_net_init_inv wq wt we wr he hr).
+  generalize (treg_net_init wq wt we wr he hr) as s. generalize cell_zero as c.
+  induction h as [|i h IH]; intros c s Hinv; [exact Hinv|].
+  cbn [map fold_left]. apply IH. apply treg_net_step_sim. exact Hinv.
+Qed.
+
+Lemma treg_netlist_refines wq wt we wr he hr h :
+  let s := treg_net_run wq wt we wr he hr h in
+  let c := run (treg_m wq he hr) cell_zero (map (treg_seen wt we wr) h) in
+  rd (vals s) (treg_q he hr) = cell_q c /\ sts s = [St_Reg (fst c)] /\ pend s = [].
+Proof. intros s c. destruct (treg_net_run_inv wq wt we wr he hr h) as (_ & Hq & Hs & Hp). auto. Qed.
+
+(* ================================================================== the general kernel theorems apply to these netlists:
+   evaluation list in dependency order with one driver per wire (C05 `topo`; C04 `ordered` / `single_driver`), every clocked leaf
+   registered once, one writer per wire.  Hence by C04 every valuation the run passes through is settled, by C05 the edge uses
+   pre-edge values, propagateAll is idempotent and clk(m+n) = clk(n) after clk(m) on them. *)
+From V Require Import Spec.C04 Spec.C05 Proofs.C05.ListAux Proofs.C04.Settle.
+
+Ltac nth_cases i H := repeat (destruct i as [|i]; [cbn in H; injection H as <- | ]); try (destruct i; discriminate H).
+Ltac ordered_tac :=
+  let i := fresh "i" in let j := fresh "j" in let a := fresh "a" in let b := fresh "b" in
+  let Hi := fresh "Hi" in let Hj := fresh "Hj" in let x := fresh "x" in let Ho := fresh "Ho" in let Hx := fresh "Hx" in
+  intros i j a b Hi Hj (x & Ho & Hx);
+  nth_cases i Hi; nth_cases j Hj; cbn in Ho, Hx;
+  repeat match goal with H : _ \/ _ |- _ => destruct H as [H|H] end; try contradiction; subst; try discriminate; lia.
+
+Lemma counter_design_wellformed w wr wi hi hr :
+  let D := counter_design w wr wi hi hr in
+  topo (combs D) /\ ordered (combs D) /\ single_driver (combs D) /\ registered_once D /\ single_writer D /\ outs_nodup D.
+Proof.
+  cbv zeta. split; [apply topo_b_spec; destruct hi, hr; vm_compute; reflexivity|].
+  split; [destruct hi, hr; ordered_tac|].
+  split; [unfold single_driver; apply nodup_b_spec; destruct hi, hr; vm_compute; reflexivity|].
+  split; [apply registered_once_b_spec; destruct hi, hr; vm_compute; reflexivity|].
+  split; [apply single_writer_b_spec; destruct hi, hr; vm_compute; reflexivity|].
+  apply outs_nodup_b_spec; destruct hi, hr; vm_compute; reflexivity.
+Qed.
+
+Lemma counter_net_settled w wr wi hi hr h :
+  settled (counter_design w wr wi hi hr) (vals (counter_net_run w wr wi hi hr h)).
+Proof.
+  destruct (counter_design_wellformed w wr wi hi hr) as (_ & Hord & Hsd & _).
+  unfold counter_net_run. destruct h as [|i h] using rev_ind.
+  - cbn [fold_left]. unfold counter_net_init, init_poked. cbn [vals]. apply propagateAll_settled; assumption.
+  - rewrite fold_left_app. cbn [fold_left]. unfold counter_net_step at 1, do_step. apply clk_settled; assumption.
+Qed.
+
+Lemma treg_design_wellformed wq wt we wr he hr :
+  let D := treg_design wq wt we wr he hr in
+  topo (combs D) /\ ordered (combs D) /\ single_driver (combs D) /\ registered_once D /\ single_writer D /\ outs_nodup D.
+Proof.
+  cbv zeta. split; [apply topo_b_spec; destruct he, hr; vm_compute; reflexivity|].
+  split; [destruct he, hr; ordered_tac|].
+  split; [unfold single_driver; apply nodup_b_spec; destruct he, hr; vm_compute; reflexivity|].
+  split; [apply registered_once_b_spec; destruct he, hr; vm_compute; reflexivity|].
+  split; [apply single_writer_b_spec; destruct he, hr; vm_compute; reflexivity|].
+  apply outs_nodup_b_spec; destruct he, hr; vm_compute; reflexivity.
+Qed.
+
+Lemma treg_net_settled wq wt we wr he hr h :
+  settled (treg_design wq wt we wr he hr) (vals (treg_net_run wq wt we wr he hr h)).
+Proof.
+  destruct (treg_design_wellformed wq wt we wr he hr) as (_ & Hord & Hsd & _).
+  unfold treg_net_run. destruct h as [|i h] using rev_ind.
+  - cbn [fold_left]. unfold treg_net_init, init_poked. cbn [vals]. apply propagateAll_settled; assumption.
+  - rewrite fold_left_app. cbn [fold_left]. unfold treg_net_step at 1, do_step. apply clk_settled; assumption.
+Qed.
+
+(* one history entry IS: poke, propagateAll, one Model/SimKernel.clk_cycle (definitional) *)
+Lemma counter_net_step_is_clk_cycle w wr wi hi hr s i :
+  let D := counter_design w wr wi hi hr in
+  let sp := fold_left (fun s p => poke D s (fst p) (snd p)) (counter_pokes hi hr i) s in
+  counter_net_step w wr wi hi hr s i =
+  clk_cycle D {| vals := propagateAll D (vals sp); pend := pend sp; sts := sts sp; total := total sp |}.
+Proof. reflexivity. Qed.
+Lemma treg_net_step_is_clk_cycle wq wt we wr he hr s i :
+  let D := treg_design wq wt we wr he hr in
+  let sp := fold_left (fun s p => poke D s (fst p) (snd p)) (treg_pokes he hr i) s in
+  treg_net_step wq wt we wr he hr s i =
+  clk_cycle D {| vals := propagateAll D (vals sp); pend := pend sp; sts := sts sp; total := total sp |}.
+Proof. reflexivity. Qed.
+
+(* TReg against the reference machine (on the values the ports show: a reset port fires on the MASKED value = 1) *)
+From V Require Import Proofs.C09.Reg.
+Lemma treg_netlist_spec wq wt we wr he hr h : 1 <= wq ->
+  rd (vals (treg_net_run wq wt we wr he hr h)) (treg_q he hr) = run (treg_spec he hr) 0 (map (treg_seen wt we wr) h).
+Proof. intros Hw. destruct (treg_netlist_refines wq wt we wr he hr h) as (Hq & _). rewrite Hq. apply treg_refines. exact Hw. Qed.
